@@ -61,11 +61,34 @@ type recorder struct {
 	docs    [][]byte
 	metas   []frac.MetaData
 	err     string
+	// hold: block inside StoreDocuments until released; the payload slices belong to the pooled
+	// compressor of THIS request and must not change while the call is in flight
+	hold    *holdCtl
+	changed string
 }
+
+type holdCtl struct {
+	entered chan struct{}
+	release chan struct{}
+}
+
+type recKey struct{}
 
 func (c *recorder) StoreDocuments(_ context.Context, total int, docs, metas []byte) error {
 	c.calls++
 	c.total = total
+	if c.hold != nil {
+		d0 := append([]byte{}, docs...)
+		m0 := append([]byte{}, metas...)
+		close(c.hold.entered)
+		<-c.hold.release
+		if !bytes.Equal(d0, docs) {
+			c.changed = "docs block"
+		} else if !bytes.Equal(m0, metas) {
+			c.changed = "metas block"
+		}
+	}
+	// everything below reads the payload as it is when the call RETURNS
 	d, err := disk.DocBlock(docs).DecompressTo(nil)
 	if err != nil {
 		c.err = "docs block: " + err.Error()
@@ -117,11 +140,12 @@ type fixedTime struct {
 	ing  *bulk.Ingestor
 	t    time.Time
 	seen time.Time
+	rec  *recorder
 }
 
 func (f *fixedTime) ProcessDocuments(ctx context.Context, rt time.Time, rn func() ([]byte, error)) (int, error) {
 	f.seen = rt
-	return f.ing.ProcessDocuments(ctx, f.t, rn)
+	return f.ing.ProcessDocuments(context.WithValue(ctx, recKey{}, f.rec), f.t, rn)
 }
 
 // reader delivering the body in small pieces (exercises bufio's fill loop)
@@ -174,10 +198,11 @@ type env struct {
 	recs   []*recorder // current recorder per ingestor (swapped per request)
 }
 
-type swapClient struct{ cur *recorder }
+// the ingestor's StorageClient: hands the call to the recorder of the request it belongs to
+type swapClient struct{}
 
 func (s *swapClient) StoreDocuments(ctx context.Context, total int, docs, metas []byte) error {
-	return s.cur.StoreDocuments(ctx, total, docs, metas)
+	return ctx.Value(recKey{}).(*recorder).StoreDocuments(ctx, total, docs, metas)
 }
 
 // ---------------------------------------------------------------- request description
@@ -232,11 +257,22 @@ type record struct {
 	Fp         string       `json:"fp,omitempty"`
 	What       string       `json:"what,omitempty"`
 	Key        string       `json:"key,omitempty"`
+	Hist       []histItem   `json:"hist,omitempty"`
+	ObsList    []*observation `json:"obs_list,omitempty"`
+}
+
+// one request of a history: role = empty (accepted, no surviving document) | held (blocked inside
+// StoreDocuments while the "during" requests run completely) | during | after (sequential)
+type histItem struct {
+	Role    string   `json:"role"`
+	Request *request `json:"request"`
 }
 
 // ---------------------------------------------------------------- running one request on the real code
 
-func newEnv(maxDoc int) *env {
+func newEnv(maxDoc int) *env { return newEnvN(maxDoc, 1) }
+
+func newEnvN(maxDoc, inflight int) *env {
 	e := &env{maxDoc: maxDoc, B: max(maxDoc, 16)}
 	mp, err := mappingprovider.New("", mappingprovider.WithMapping(mapping))
 	if err != nil {
@@ -244,21 +280,18 @@ func newEnv(maxDoc int) *env {
 	}
 	for _, c := range driftCfgs {
 		sc := &swapClient{}
-		ing := bulk.NewIngestor(bulk.IngestorConfig{MaxInflightBulks: 1, AllowedTimeDrift: c.drift,
+		ing := bulk.NewIngestor(bulk.IngestorConfig{MaxInflightBulks: inflight, AllowedTimeDrift: c.drift,
 			FutureAllowedTimeDrift: c.fdrift, MappingProvider: mp, MaxTokenSize: 72, MaxDocumentSize: maxDoc}, sc)
 		e.ings = append(e.ings, ing)
-		_ = sc
-		clients = append(clients, sc)
 	}
 	return e
 }
 
-var clients []*swapClient
+func (e *env) serve(rq *request, emit func(record)) *observation { return e.serveHold(rq, emit, nil) }
 
-func (e *env) serve(rq *request, emit func(record)) *observation {
-	rec := &recorder{}
-	clients[rq.Cfg].cur = rec
-	ft := &fixedTime{ing: e.ings[rq.Cfg], t: time.Unix(0, rq.NowNs).UTC()}
+func (e *env) serveHold(rq *request, emit func(record), hold *holdCtl) *observation {
+	rec := &recorder{hold: hold}
+	ft := &fixedTime{ing: e.ings[rq.Cfg], t: time.Unix(0, rq.NowNs).UTC(), rec: rec}
 	h := proxyapi.NewBulkHandler(ft, e.maxDoc)
 	var rd io.Reader
 	raw := rq.body
@@ -300,6 +333,9 @@ func (e *env) serve(rq *request, emit func(record)) *observation {
 	o := &observation{Status: w.Code, Resp: w.Body.String(), Calls: rec.calls, Total: rec.total, payload: rec.payload, mpay: rec.mpay, metas: rec.metas}
 	if len(o.Resp) > 300 {
 		o.Resp = o.Resp[:300] + "..."
+	}
+	if rec.changed != "" {
+		emit(record{Kind: "viol", Fp: "payload-changed-in-flight", What: "the " + rec.changed + " handed to StoreDocuments changed while the call was in flight (another request wrote into this request's pooled compressor)", Req: rq})
 	}
 	if rec.err != "" {
 		emit(record{Kind: "viol", Fp: "payload-undecodable", What: "payload handed to StoreDocuments does not decode: " + rec.err, Req: rq})
@@ -1065,6 +1101,138 @@ func metaCases(r *rng.R, n int, emit func(record)) {
 	}
 }
 
+// ---------------------------------------------------------------- histories of overlapping requests
+
+func (g *gen) plainBody(kind string) []byte {
+	r := g.r
+	var sb bytes.Buffer
+	switch kind {
+	case "empty": // accepted, but no document survives
+		for i := r.Intn(4); i > 0; i-- {
+			sb.WriteString(actionLines[r.Intn(2)] + "\n")
+			if r.Bool() {
+				sb.WriteString(rng.Pick(r, []string{"1", "null", "[1]", "\"s\"", "true"}) + "\n")
+			} else {
+				sb.WriteString(objectOfLen(r, g.e.B+r.Range(0, 40)) + "\n")
+			}
+		}
+	case "big":
+		for i := r.Range(3, 8); i > 0; i-- {
+			sb.WriteString(actionLines[r.Intn(2)] + "\n")
+			sb.WriteString(objectOfLen(r, r.Range(g.e.B/2, g.e.B-2)) + "\n")
+		}
+	default:
+		for i := r.Range(1, 3); i > 0; i-- {
+			sb.WriteString(actionLines[r.Intn(2)] + "\n")
+			sb.WriteString(objectOfLen(r, r.Range(8, g.e.B/2)) + "\n")
+		}
+	}
+	return sb.Bytes()
+}
+
+func newHistory(e *env, r *rng.R) []histItem {
+	g := &gen{r: r, e: e, feat: map[string]bool{}}
+	cfg := r.Intn(len(driftCfgs))
+	var roles []string
+	for k := r.Intn(3); k > 0; k-- {
+		roles = append(roles, "empty")
+	}
+	roles = append(roles, "held")
+	for k := r.Range(1, 3); k > 0; k-- {
+		roles = append(roles, "during")
+	}
+	for k := r.Range(1, 2); k > 0; k-- {
+		roles = append(roles, "after")
+	}
+	var h []histItem
+	for _, role := range roles {
+		kind := map[string]string{"empty": "empty", "held": "big"}[role]
+		if role == "after" && r.Chance(1, 3) {
+			kind = "empty"
+		}
+		body := g.plainBody(kind)
+		now := baseNow.Add(time.Duration(r.Intn(3600_000)) * time.Millisecond)
+		h = append(h, histItem{role, &request{MaxDoc: e.maxDoc, Cfg: cfg, NowNs: now.UnixNano(), BodyHex: hex.EncodeToString(body),
+			BodyText: fmt.Sprintf("%q", body), Class: "overlap-history", body: body}})
+	}
+	return h
+}
+
+// runs the history on the real handler: the held request enters StoreDocuments and stays there
+// while the "during" requests are processed completely; then it is released
+func runHistory(e *env, h []histItem, emit func(record)) bool {
+	var viols []record
+	var mu sync.Mutex
+	collect := func(rc record) {
+		mu.Lock()
+		rc.Hist = h
+		rc.Req = nil
+		viols = append(viols, rc)
+		mu.Unlock()
+	}
+	obs := make([]*observation, len(h))
+	tables := make([]string, len(h))
+	for i, it := range h {
+		t, _, ok := buildTable(it.Request, collect)
+		if !ok {
+			return false
+		}
+		tables[i] = t
+	}
+	var hold *holdCtl
+	var done chan struct{}
+	heldIdx := -1
+	releaseHeld := func() {
+		if hold != nil {
+			close(hold.release)
+			<-done
+			hold = nil
+		}
+	}
+	for i, it := range h {
+		switch it.Role {
+		case "held":
+			hold = &holdCtl{entered: make(chan struct{}), release: make(chan struct{})}
+			done = make(chan struct{})
+			heldIdx = i
+			go func(i int, hc *holdCtl) {
+				defer close(done)
+				obs[i] = e.serveHold(h[i].Request, collect, hc)
+			}(i, hold)
+			select {
+			case <-hold.entered:
+			case <-done: // never reached the store (should not happen for these bodies)
+				hold = nil
+			case <-time.After(20 * time.Second):
+				collect(record{Kind: "viol", Fp: "hang:held-request", What: "the held request neither reached StoreDocuments nor returned"})
+				return false
+			}
+		case "after":
+			releaseHeld()
+			obs[i] = e.serve(it.Request, collect)
+		default:
+			obs[i] = e.serve(it.Request, collect)
+		}
+	}
+	releaseHeld()
+	_ = heldIdx
+	bad := false
+	for _, v := range viols {
+		emit(v)
+		bad = true
+	}
+	var terms []string
+	for i, it := range h {
+		if obs[i] == nil {
+			return bad
+		}
+		terms = append(terms, "("+caseTerm(e, it.Request, obs[i], tables[i])+")")
+	}
+	emit(record{Kind: "case", Coq: "CHist [" + strings.Join(terms, "; ") + "]", Class: "overlap-history", Nontrivial: true, Hist: h, ObsList: obs})
+	emit(record{Kind: "count", Key: fmt.Sprintf("history:requests-%d", len(h))})
+	return bad
+}
+
 // ---------------------------------------------------------------- worker
 
 type workerSpec struct {
@@ -1072,6 +1240,7 @@ type workerSpec struct {
 	N      int
 	Modes  []string
 	Seed   uint64
+	Procs  int // GOMAXPROCS of the child (0 = default)
 }
 
 func runOne(e *env, rq *request, feat map[string]bool, emit func(record)) {
@@ -1128,6 +1297,13 @@ func worker(spec workerSpec, out io.Writer) {
 		metaCases(r, spec.N, emit)
 		return
 	}
+	if len(spec.Modes) == 1 && spec.Modes[0] == "overlap" {
+		e := newEnvN(spec.MaxDoc, 8)
+		for i := 0; i < spec.N; i++ {
+			runHistory(e, newHistory(e, r), emit)
+		}
+		return
+	}
 	e := newEnv(spec.MaxDoc)
 	for i := 0; i < spec.N; i++ {
 		mode := spec.Modes[i%len(spec.Modes)]
@@ -1170,7 +1346,8 @@ func plan(tier string, seed uint64) []workerSpec {
 		{7, 300 * k, fr, 0}, {16, 300 * k, fr, 0}, {17, 300 * k, fr, 0}, {23, 250 * k, fr, 0}, {32, 300 * k, fr, 0},
 		{64, 450 * k, mix, 0}, {100, 400 * k, mix, 0}, {200, 500 * k, tm, 0}, {1024, 100 * k, mix, 0},
 		{128, 60 * k, sp, 0}, {20, 30 * k, []string{"oversize-tail-exact"}, 0},
-		{0, 200 * k, nil, 0}, // meta codec
+		{0, 200 * k, nil, 0, 0}, // meta codec
+		{64, 40 * k, []string{"overlap"}, 0, 0}, {48, 40 * k, []string{"overlap"}, 0, 1}, {256, 20 * k, []string{"overlap"}, 0, 2},
 	}
 	if tier == "thorough" {
 		specs = append(specs, workerSpec{4096, 300, mix, 0}, workerSpec{33, 300 * k, fr, 0}, workerSpec{257, 200 * k, mix, 0})
